@@ -111,6 +111,13 @@ fn ops_for(p: &Proto, b: Backend, stateless: bool, plen: usize, bit_stride: usiz
         for (n, f) in [(1usize, 0u8), (1, 0xff), (16, 0), (17, 1)] {
             if total + n <= 65535 {
                 ops.push(rd(r, 0, alt(Alter::Extend(n, f))));
+                // the same with a payload buffer that fits the genuine message exactly (and one that is short of the
+                // extended message's by one byte): a reader that looks only at as much of the input as its buffer can
+                // hold would accept the genuine prefix
+                for fit in [plen, plen + n - 1] {
+                    let m = alt(Alter::Extend(n, f));
+                    ops.push(if stateless { Op::SRead { side: r, nonce: 0, msg: m, cap: Cap::Exact(fit) } } else { Op::TRead { side: r, msg: m, cap: Cap::Exact(fit) } });
+                }
             }
         }
         ops.push(rd(r, 0, Msg::Garbage(total, 0)));
@@ -346,7 +353,7 @@ pub fn run(tier: Tier) -> i32 {
     // thorough: every psk-modifier subset of every pattern (556 names per cipher x backend) and more payload lengths
     // (the deeper alphabet costs well under a minute: the quick tier runs it too)
     let thorough = true;
-    ctx.set_rule("case = one delivery to a transport-mode read: the peer's genuine message altered by every single-bit flip, every truncation length, extensions, all-zero / all-ones strings, reflection to its own sender, the corresponding message of a parallel session with the same static keys, a handshake message, and (stateless) the genuine message under every other nonce of a 80-value boundary alphabet; stateful and stateless, both directions, 38 patterns + psk variants x 3 ciphers x 2 backends, output buffers comfortably large and (un-modified patterns) exactly payload-sized / payload + 9; the cross-session / reflection deliveries again after dangerously_get_raw_split was queried early by both parties and after rekey_manually with two keys; oracle: Ok iff unaltered message of this session, direction, key and nonce. non-trivial = the delivery was rejected as required");
+    ctx.set_rule("case = one delivery to a transport-mode read: the peer's genuine message altered by every single-bit flip, every truncation length, extensions (roomy buffer, a buffer that fits the genuine message exactly, and one byte short of the extended one), all-zero / all-ones strings, reflection to its own sender, the corresponding message of a parallel session with the same static keys, a handshake message, and (stateless) the genuine message under every other nonce of a 80-value boundary alphabet; stateful and stateless, both directions, 38 patterns + psk variants x 3 ciphers x 2 backends, output buffers comfortably large and (un-modified patterns) exactly payload-sized / payload + 9; the cross-session / reflection deliveries again after dangerously_get_raw_split was queried early by both parties and after rekey_manually with two keys; oracle: Ok iff unaltered message of this session, direction, key and nonce. non-trivial = the delivery was rejected as required");
     // last element: output buffers of the reads - 0 comfortably large, 1 exactly the payload size, 2 payload size + 9
     let mut cases: Vec<(Proto, Backend, bool, usize, usize, u8)> = vec![];
     let base = patterns::base_patterns();
@@ -392,7 +399,7 @@ pub fn run(tier: Tier) -> i32 {
             let cap = if *rcap == 1 { Cap::NeedPlus(0) } else { Cap::NeedPlus(9) };
             for op in ops.iter_mut() {
                 match op {
-                    Op::TRead { cap: c, .. } | Op::SRead { cap: c, .. } => *c = cap.clone(),
+                    Op::TRead { cap: c, .. } | Op::SRead { cap: c, .. } if *c == Cap::Roomy => *c = cap.clone(),
                     _ => {},
                 }
             }
